@@ -17,7 +17,7 @@ from vlib import core, twin
 from models import c05_init as M
 
 LEVEL = "exploration"
-BUDGET = {"quick": 420, "thorough": 2400}
+BUDGET = {"quick": 900, "thorough": 3000}
 
 BATCH = 400
 
@@ -903,7 +903,7 @@ def run(ctx):
     nclasses = 0
     pending = {k: list(v) for k, v in groups_.items()}
     rnd = 0
-    while pending and rnd < 12 and not ctx.out_of_time(reserve=20):
+    while pending and rnd < 40 and not ctx.out_of_time(reserve=20):
         rnd += 1
         keys = sorted(pending)
         reps = [(ctx.chibicc, os.path.join(ctx.work, "shr%d_%d" % (rnd, i)), pending[k][0][1], pending[k][0][2], pending[k][0][3],
